@@ -24,7 +24,7 @@ NAMINGS = {
 }
 
 
-def merge_path(max_parts, backend_kind='fake', fixed=None):
+def merge_path(max_parts, backend_kind='fake', fixed=None, max_assoc=2):
     fixed = fixed or {}
 
     def pick(name, options):
@@ -37,7 +37,8 @@ def merge_path(max_parts, backend_kind='fake', fixed=None):
         naming = pick('naming', list(NAMINGS))
         how = pick('how', ['list', 'pattern']) if naming == 'unpadded_numbers' else 'list'
         identified = pick('identified', [True, False])
-        with_assoc = pick('with_associated', [False, True])
+        with_assoc = pick('with_associated', [False, True] + ([2] if max_assoc >= 2 else []))
+        n_assoc = int(with_assoc)
         total = sum(sizes)
         symbolic_ids = identified and total <= 3
         ids = [symint(f'id{j}', 0, 10 ** 6) for j in range(total)] if symbolic_ids else ([(7919 * (j + 3)) % 1000 for j in range(total)] if identified else [None] * total)
@@ -51,45 +52,47 @@ def merge_path(max_parts, backend_kind='fake', fixed=None):
         layout = dict(parts=k, sizes=sizes, naming=naming, how=how, identified=identified, with_associated=with_assoc)
         with S.backend(backend_kind), _patches(backend_kind), S.Scratch('c09') as d:
             try:
-                paths, apaths, j = [], [], 0
-                extra = _extra_fieldset() if with_assoc else None
+                paths, apaths, j = [], [[] for _ in range(n_assoc)], 0
+                extras = [_extra_fieldset(a) for a in range(n_assoc)]
+                pre = ['assoc_', 'bssoc_']
                 for i in range(k):
                     p = d / NAMINGS[naming](i)
-                    ap = d / ('assoc_' + NAMINGS[naming](i))
+                    aps = [d / (pre[a] + NAMINGS[naming](i)) for a in range(n_assoc)]
                     kw = dict(base_file=p)
-                    if with_assoc:
-                        kw['associated_files'] = [(ap, [extra.fieldset_name])]
+                    if n_assoc:
+                        kw['associated_files'] = [(aps[a], [extras[a].fieldset_name]) for a in range(n_assoc)]
                     with ST.TrajectoryStore.create(**kw) as ts:
                         for _ in range(sizes[i]):
-                            t = S.make_traj(j + 1, flight_id=ids[j], fieldsets=[extra.fieldset_name] if with_assoc else None)
-                            if with_assoc:
-                                t.vf_extra = np.array([(j + 1) * 7.0 + q for q in range(len(t))])
+                            t = S.make_traj(j + 1, flight_id=ids[j], fieldsets=[e_.fieldset_name for e_ in extras] if n_assoc else None)
+                            for a in range(n_assoc):
+                                setattr(t, EXTRA_FIELDS[a], np.array([(j + 1) * (7.0 + 4 * a) + q for q in range(len(t))]))
                             ts.add(t)
                             j += 1
                     paths.append(p)
-                    apaths.append(ap)
+                    for a in range(n_assoc):
+                        apaths[a].append(aps[a])
                 out = d / 'merged.aeic-store'
-                aout = d / 'merged_assoc.aeic-store'
+                aouts = [d / f'merged_{pre[a]}.aeic-store' for a in range(n_assoc)]
                 if how == 'pattern':
                     ST.TrajectoryStore.merge(output_store=out, input_stores_pattern=d / 'chunk_{index}.nc', input_stores_index_range=(9, 9 + k - 1))
-                    if with_assoc:
-                        ST.TrajectoryStore.merge(output_store=aout, input_stores_pattern=d / 'assoc_chunk_{index}.nc', input_stores_index_range=(9, 9 + k - 1))
+                    for a in range(n_assoc):
+                        ST.TrajectoryStore.merge(output_store=aouts[a], input_stores_pattern=d / (pre[a] + 'chunk_{index}.nc'), input_stores_index_range=(9, 9 + k - 1))
                 else:
                     ST.TrajectoryStore.merge(output_store=out, input_stores=paths)
-                    if with_assoc:
-                        ST.TrajectoryStore.merge(output_store=aout, input_stores=apaths)
+                    for a in range(n_assoc):
+                        ST.TrajectoryStore.merge(output_store=aouts[a], input_stores=apaths[a])
                 okw = dict(base_file=out)
-                if with_assoc:
-                    okw['associated_files'] = [aout]
+                if n_assoc:
+                    okw['associated_files'] = list(aouts)
                 with ST.TrajectoryStore.open(**okw) as ts:
-                    if with_assoc:
+                    for a in range(n_assoc):
                         for i in range(min(total, len(ts))):
                             try:
-                                v = ts[i].vf_extra
-                                if len(v) != len(ts[i]) or any(abs(float(v[q]) - ((i + 1) * 7.0 + q)) > 1e-9 for q in range(len(v))):
-                                    problems.append(f'index {i}: data of the merged associated store belongs to another trajectory ({[float(x) for x in v]})')
+                                v = getattr(ts[i], EXTRA_FIELDS[a])
+                                if len(v) != len(ts[i]) or any(abs(float(v[q]) - ((i + 1) * (7.0 + 4 * a) + q)) > 1e-9 for q in range(len(v))):
+                                    problems.append(f'index {i}: data of merged associated store {a} belongs to another trajectory ({[float(x) for x in v]})')
                             except Exception as e:  # noqa
-                                problems.append(f'index {i}: associated data: {type(e).__name__}: {e}')
+                                problems.append(f'index {i}: associated data (store {a}): {type(e).__name__}: {e}')
                     if len(ts) != total:
                         problems.append(f'length {len(ts)} != sum of input lengths {total}')
                     for i in range(total):
@@ -197,18 +200,19 @@ def refusal_path(backend_kind='fake'):
     return fn
 
 
-_EXTRA = None
+_EXTRA = {}
+EXTRA_FIELDS = ['vf_extra', 'vf_extra2']
 
 
-def _extra_fieldset():
-    global _EXTRA
+def _extra_fieldset(a=0):
     ST, FS, TR = S.mods()
-    if _EXTRA is None:
-        if 'vf_extra_fields' in FS.FieldSet.REGISTRY:
-            _EXTRA = FS.FieldSet.REGISTRY['vf_extra_fields']
+    name = 'vf_extra_fields' + ('' if a == 0 else str(a + 1))
+    if a not in _EXTRA:
+        if name in FS.FieldSet.REGISTRY:
+            _EXTRA[a] = FS.FieldSet.REGISTRY[name]
         else:
-            _EXTRA = FS.FieldSet('vf_extra_fields', vf_extra=FS.FieldMetadata(description='harness field', units='1'))
-    return _EXTRA
+            _EXTRA[a] = FS.FieldSet(name, **{EXTRA_FIELDS[a]: FS.FieldMetadata(description='harness field', units='1')})
+    return _EXTRA[a]
 
 
 class Crash(Exception):
